@@ -270,6 +270,27 @@ def commute_sound(run, ent, op, parents):
             if com.second is not cur_op and not com.done:
                 run.violate("commute_unsound", {"why": "refusal does not hand back the existing operation",
                                                 "existing": str(cur_op), "new": str(new_op)}, entry=ent)
+            elif com.done:
+                # "nothing to insert and nothing left to do": claims that the new operation does nothing after the
+                # existing one - judged like any other report, with an empty first operation
+                try:
+                    base = interp(w, current.target)
+                    fx = interp(w, new_op.fixed) if isinstance(new_op, PartialJoin) else None
+
+                    def app0(o, rows):
+                        if isinstance(o, PartialJoin):
+                            f = fx if o is new_op else interp(w, o.fixed)
+                            return join_rows(o.binary, f, rows) if o.fixed_is_lhs else join_rows(o.binary, rows, f)
+                        return apply_unary(o, rows)
+
+                    lhs = app0(new_op, app0(cur_op, base))
+                    r = app0(com.second, base)
+                except (InterpError, KeyError):
+                    continue
+                if lhs != r or set(new_op.applied_columns(current)) != set(com.second.applied_columns(current.target)):
+                    run.violate("commute_unsound", {"why": "reported as fully handled with nothing inserted, but the new "
+                                                    "operation is not a no-op", "existing": str(cur_op), "new": str(new_op),
+                                                    "expected": lhs[:6], "got": r[:6]}, entry=ent)
             continue
         # well-formedness of the reported operations
         tcols = _cols(current.target)
